@@ -235,11 +235,11 @@ End WinEmit.
 (* ================================================================ the FSEvents emitter
    Everything about FSEvents ([fsevents_kernel], coalescing) is modelled from the documentation and the
    comments in fsevents.py; it cannot be validated in this sandbox. *)
-Require WD.Model.FsEvents WD.Proofs.FsEventsProofs WD.Proofs.FsContractProofs WD.Proofs.FsReplayProofs WD.Proofs.FsBatchProofs WD.Proofs.FsCutProofs.
+Require WD.Model.FsEvents WD.Proofs.FsEventsProofs WD.Proofs.FsContractProofs WD.Proofs.FsReplayProofs WD.Proofs.FsBatchProofs WD.Proofs.FsCutProofs WD.Proofs.PlatFsProofs.
 
 Module Fse.
 Import WD.Base.BStr WD.Model.SubEvents WD.Model.PlatFs WD.Model.FsEvents WD.Proofs.FsEventsProofs.
-Import WD.Proofs.WinEmitterProofs WD.Proofs.WinReplayProofs WD.Proofs.FsContractProofs WD.Proofs.FsReplayProofs WD.Proofs.FsBatchProofs WD.Proofs.FsCutProofs.
+Import WD.Proofs.PlatFsProofs WD.Proofs.WinEmitterProofs WD.Proofs.WinReplayProofs WD.Proofs.FsContractProofs WD.Proofs.FsReplayProofs WD.Proofs.FsBatchProofs WD.Proofs.FsCutProofs.
 
 (* Non-recursive watch: whatever the native batch (any flags, any paths, any coalescing, any cut), the
    _fs_view and the state of the file system, every queued event passed _is_recursive_event ... *)
